@@ -64,12 +64,6 @@ def run(ck: Checker):
                        f'add_pairwise_if_then_else{kw or ""}: r_i = ite(if_i, then_i, else_i) in order', kwargs=kw)
     ck.floor('C09.GADGET', 9)
 
-    # ---- bounded template instantiation of the loop-built gadgets whose loop body has finitely many index cases
-    ck.rule('C09.FOLD', 'for-range templates instantiated for every small width that exhibits each index case (i < len(b), i >= len(b), i == len(in), i > len(in), first/last), on a host circuit that already has gates and outputs: '
-                        'add_equal (constant fits / does not fit), add_plus_one (every in/out width <= 3/4, both endiannesses, with and without outputs), add_sub_two_numbers (widths <= 3 x 3, both endiannesses)')
-    fold_templates(ck, B)
-    ck.floor('C09.FOLD', 3)
-
     # OUT-GUARD
     n_guard = 0
     for m, q, fn in R.gen_functions(repo, MODULES):
@@ -102,6 +96,13 @@ def run(ck: Checker):
     ck.floor('C09.ENDIAN', 8)
     n = R.check_placeholders(ck, 'C09.PLACEHOLDER', MODULES)
     ck.need(n >= 1, f'only {n} placeholder-using functions could be analysed')
+    # folds last: structural rules above have already reported what they can if a template is not foldable
+    # ---- bounded template instantiation of the loop-built gadgets whose loop body has finitely many index cases
+    ck.rule('C09.FOLD', 'for-range templates instantiated for every small width that exhibits each index case (i < len(b), i >= len(b), i == len(in), i > len(in), first/last), on a host circuit that already has gates and outputs: '
+                        'add_equal (constant fits / does not fit), add_plus_one (every in/out width <= 3/4, both endiannesses, with and without outputs), add_sub_two_numbers (widths <= 3 x 3, both endiannesses)')
+    fold_templates(ck, B)
+    ck.floor('C09.FOLD', 3)
+
     ck.assume('NOT DECIDED: exactness of subtraction chains, division, square root, the equality gadget and the plus-one carry chain (loop-built arithmetic)')
 
 
@@ -138,6 +139,9 @@ def fold_templates(ck: Checker, B):
             except InterpRaise as e:
                 probs.append(f'add_equal(width {n}, num {num}) raises {e.exc_name}')
                 continue
+            if res not in c._gates:
+                probs.append(f'add_equal(width {n}, num {num}) returned a label that names no gate')
+                continue
             for vals in semantics.bools(n):
                 a = dict(zip(names, vals))
                 got = c.evaluate(res, a)
@@ -173,8 +177,8 @@ def fold_templates(ck: Checker, B):
                         except InterpRaise as e:
                             probs.append(f'add_plus_one(in {n}, out {out_len}, big_endian={be}, add_outputs={outs}) raises {e.exc_name}')
                             continue
-                        if len(res) != out_len:
-                            probs.append(f'add_plus_one(in {n}, out {out_len}) returned {len(res)} bits')
+                        if len(res) != out_len or any(r not in c._gates for r in res):
+                            probs.append(f'add_plus_one(in {n}, out {out_len}) returned {len(res)} bits / labels of missing gates')
                             continue
                         want_outs = ['own'] + (list(res) if outs else [])
                         if c._outputs != want_outs:
@@ -206,6 +210,10 @@ def fold_templates(ck: Checker, B):
                     res = B.run(sm.name, 'add_sub_two_numbers', c, list(names[:na]), list(names[na:]), big_endian=be)
                 except InterpRaise as e:
                     probs.append(f'add_sub_two_numbers({na}, {nb}, big_endian={be}) raises {e.exc_name}')
+                    continue
+                missing = [r for r in res if r not in c._gates]
+                if missing:
+                    probs.append(f'add_sub_two_numbers(widths {na},{nb}, big_endian={be}): result names gates that do not exist: {missing}')
                     continue
                 for vals in semantics.bools(na + nb):
                     a = dict(zip(names, vals))
